@@ -39,6 +39,8 @@ type c11State struct {
 	c         *Ctx
 	t         *tabular.ATable
 	byErr     map[error]*c11Err
+	shared    map[error]bool // error objects raised more than once
+	raised    []*c11Err
 	tableExp  []*c11Err
 	t2        *tabular.ATable // a second table fed with t.Errors()
 	t2Exp     []*c11Err
@@ -79,6 +81,17 @@ func (s *c11State) raise(src int, what string) *c11Err {
 	s.nErr++
 	id := fmt.Sprintf("%c%d-src%d-%s", "zqaexmb"[(s.nErr*5+s.salt)%7], s.nErr, src, what) // messages are not in any order an accidental sort would preserve
 	e := &c11Err{err: c11MakeErr(id, s.nErr*5+s.salt), id: id, what: what, src: src, seq: s.nErr}
+	if len(s.raised) > 0 && (s.nErr*7+s.salt)%5 == 0 {
+		// the very same error object again (a sentinel such as io.EOF, a reused *MyErr): another occurrence of an error
+		// is another error to report, whoever raised the first one
+		prev := s.raised[(s.nErr*3+s.salt)%len(s.raised)]
+		e.err, e.id = prev.err, prev.id+" (the same error object again, raised as #"+fmt.Sprint(s.nErr)+" by source "+fmt.Sprint(src)+")"
+		s.shared[e.err] = true
+		s.raised = append(s.raised, e)
+		s.c.Rec.Count("errors_raised_that_are_an_earlier_error_object_again", 1)
+		return e
+	}
+	s.raised = append(s.raised, e)
 	s.byErr[e.err] = e
 	s.c.Rec.Count("detail:error_value_kind:"+c11ErrKindNames[(s.nErr*5+s.salt)%len(c11ErrKindNames)], 1)
 	return e
@@ -212,7 +225,7 @@ func (s *c11State) verify(list []error, exp []*c11Err, foreign int, who string) 
 	if len(list) == 0 {
 		return "errors-lost:" + firstWhat(exp), fmt.Sprintf("%s.Errors() is empty (nil=%v) but %d harness errors and %d library errors were raised; first missing: %s", who, list == nil, len(exp), foreign, firstID(exp))
 	}
-	seen := map[*c11Err]int{}
+	seen := map[error]int{}
 	nForeign := 0
 	lastSeq := map[int]int{}
 	for i, e := range list {
@@ -224,26 +237,30 @@ func (s *c11State) verify(list []error, exp []*c11Err, foreign int, who string) 
 			nForeign++
 			continue
 		}
-		seen[ce]++
+		seen[e]++
+		if s.shared[e] {
+			continue // an object raised several times has no single place in its sources' order
+		}
 		if ce.seq < lastSeq[ce.src] {
 			return "per-source-order", fmt.Sprintf("%s.Errors(): error %s of source %d appears after a later error of the same source", who, ce.id, ce.src)
 		}
 		lastSeq[ce.src] = ce.seq
 	}
-	want := map[*c11Err]bool{}
+	want := map[error]int{}
 	for _, e := range exp {
-		want[e] = true
-		switch seen[e] {
-		case 0:
-			return "errors-lost:" + e.what, fmt.Sprintf("%s.Errors() does not contain %s (list has %d entries, %d expected)", who, e.id, len(list), len(exp)+foreign)
-		case 1:
-		default:
-			return "errors-duplicated:" + e.what, fmt.Sprintf("%s.Errors() contains %s %d times", who, e.id, seen[e])
+		want[e.err]++
+	}
+	for _, e := range exp {
+		switch {
+		case seen[e.err] < want[e.err]:
+			return "errors-lost:" + e.what, fmt.Sprintf("%s.Errors() contains %s %d times, it was raised for this destination %d times (list has %d entries, %d expected)", who, e.id, seen[e.err], want[e.err], len(list), len(exp)+foreign)
+		case seen[e.err] > want[e.err]:
+			return "errors-duplicated:" + e.what, fmt.Sprintf("%s.Errors() contains %s %d times, it was raised for this destination %d times", who, e.id, seen[e.err], want[e.err])
 		}
 	}
 	for e, n := range seen {
-		if !want[e] {
-			return "error-misrouted", fmt.Sprintf("%s.Errors() contains %s (%d times), which was raised for a different destination", who, e.id, n)
+		if want[e] == 0 {
+			return "error-misrouted", fmt.Sprintf("%s.Errors() contains %s (%d times), which was raised for a different destination", who, s.byErr[e].id, n)
 		}
 	}
 	if nForeign != foreign {
@@ -261,30 +278,30 @@ func (s *c11State) verifyMulti(list []error, exp []*c11Err, foreign int, who str
 		}
 		return "", ""
 	}
-	want := map[*c11Err]int{}
+	want := map[error]int{}
 	for _, e := range exp {
-		want[e]++
+		want[e.err]++
 	}
-	got := map[*c11Err]int{}
+	got := map[error]int{}
 	nForeign := 0
 	for i, e := range list {
 		if e == nil {
 			return "nil-entry", fmt.Sprintf("%s.Errors()[%d] is nil", who, i)
 		}
 		if ce := s.byErr[e]; ce != nil {
-			got[ce]++
+			got[e]++
 		} else {
 			nForeign++
 		}
 	}
 	for e, n := range want {
 		if got[e] != n {
-			return "errors-lost-or-duplicated", fmt.Sprintf("%s.Errors() holds %s %d times, expected %d", who, e.id, got[e], n)
+			return "errors-lost-or-duplicated", fmt.Sprintf("%s.Errors() holds %s %d times, expected %d", who, s.byErr[e].id, got[e], n)
 		}
 	}
 	for e, n := range got {
 		if want[e] == 0 {
-			return "error-misrouted", fmt.Sprintf("%s.Errors() holds %s (%d times), which was never added to it", who, e.id, n)
+			return "error-misrouted", fmt.Sprintf("%s.Errors() holds %s (%d times), which was never added to it", who, s.byErr[e].id, n)
 		}
 	}
 	if nForeign != foreign {
@@ -636,13 +653,21 @@ func (s *c11State) step(r *gen.R) {
 }
 
 func c11History(c *Ctx, i int, r *gen.R) {
-	s := &c11State{c: c, t: tabular.New(), byErr: map[error]*c11Err{}, salt: r.Intn(9)}
+	s := &c11State{c: c, t: tabular.New(), byErr: map[error]*c11Err{}, shared: map[error]bool{}, salt: r.Intn(9)}
 	desc := map[string]interface{}{}
 	c.Case = desc
 	n := r.Range(5, 40)
+	// reading an error list is an operation like any other (and might put things right): a third of the histories
+	// are read after every step, a third at the end only, a third after one step in three
+	schedule := i % 3
+	desc["error_lists_are_read"] = []string{"after every step", "at the end of the history only", "after one step in three, and at the end"}[schedule]
 	for k := 0; k < n; k++ {
 		s.step(r)
 		desc["history"] = s.log
+		if !(schedule == 0 || k == n-1 || (schedule == 2 && r.Chance(1, 3))) {
+			s.c.Rec.Count("steps_after_which_no_error_list_was_read", 1)
+			continue
+		}
 		if key, msg := s.check(); key != "" {
 			c.Rec.Violate(key, fmt.Sprintf("after step %d (%s): %s", len(s.log), s.log[len(s.log)-1], msg), desc)
 			break
